@@ -272,6 +272,8 @@ def _region_worker(args):
     for v in info.values():
         for item in (v.get('iter_states') or []):
             item[2].counter = [0]
+        if v.get('iter_start') is not None:
+            v['iter_start'].counter = [0]
     return region, [(st, v.t) for st, v in outs], None, obs, stats
 
 
